@@ -621,6 +621,14 @@ type c10Idx struct {
 	isInt bool
 	n     int64
 	tag   string
+	// a string holding a decimal numeral: the statement does not say whether it
+	// is an index at all. Accepted: an error leaving everything unchanged, or
+	// exactly what the integer it spells does - nothing else (never another element)
+	numStr bool
+}
+
+func c10IdxNumStr(n int64) c10Idx {
+	return c10Idx{src: strconv.Quote("0" + strconv.FormatInt(n, 10)), isInt: true, n: n, tag: "decimal-numeral-string", numStr: true}
 }
 
 func c10IdxInt(n int64, tag string) c10Idx {
@@ -675,6 +683,7 @@ func (h *c10Hist) opRead(p c10Place, ix c10Idx, viaCall bool) *c10Op {
 	}
 	op, cont := h.newOp(opk, p, src)
 	op.itag = ix.tag
+	op.either = ix.numStr
 	if !cont.IsValid() || (cont.Kind() != reflect.Slice && cont.Kind() != reflect.String) {
 		return nil
 	}
@@ -732,6 +741,7 @@ func (h *c10Hist) opWrite(p c10Place, ix c10Idx, v c10Val, viaCall bool) *c10Op 
 	}
 	op, cont := h.newOp(opk, p, src)
 	op.itag = ix.tag
+	op.either = ix.numStr
 	if !cont.IsValid() {
 		return nil
 	}
@@ -1526,6 +1536,17 @@ func (g *c10Gen) idx(n int) c10Idx {
 		return c10IdxInt(1<<40, "+2^40")
 	case r < 83:
 		return c10IdxInt(-(1 << 40), "-2^40")
+	case r < 87:
+		// "0<n>": n in range, at len, beyond; "010".."012" whatever the length
+		switch q := g.rn(4); {
+		case q == 0 && n > 0:
+			return c10IdxNumStr(int64(g.rn(n)))
+		case q == 1:
+			return c10IdxNumStr(int64(n))
+		case q == 2:
+			return c10IdxNumStr(int64(n + 2))
+		}
+		return c10IdxNumStr(int64(10 + g.rn(3)))
 	}
 	return g.badIdx()
 }
@@ -2088,6 +2109,24 @@ var c10Fixed = []func(h *c10Hist, do func(*c10Op)){
 	// lengthens the element of the outer slice; element stores write through
 	func(h *c10Hist, do func(*c10Op)) { c10NestedHistory(h, do, true) },
 	func(h *c10Hist, do func(*c10Op)) { c10NestedHistory(h, do, false) },
+	// 12: a string spelling a decimal numeral with a leading zero is either no index
+	// at all or the decimal number - never another element
+	func(h *c10Hist, do func(*c10Op)) {
+		do(h.opInit("a", c10USlice(c10Int(0), c10Int(1), c10Int(2), c10Int(3), c10Int(4), c10Int(5), c10Int(6), c10Int(7))))
+		do(h.opWrite(c10P("a"), c10IdxNumStr(10), c10Int(9), false))
+		do(h.opRead(c10P("a"), c10IdxNumStr(7), false))
+		do(h.opWrite(c10P("a"), c10IdxNumStr(8), c10Int(8), false))
+		do(h.opWrite(c10P("a"), c10IdxNumStr(9), c10Int(9), false))
+		do(h.opWrite(c10P("a"), c10IdxNumStr(10), c10Int(10), false))
+		do(h.opWrite(c10P("a"), c10IdxNumStr(11), c10Int(11), false))
+		do(h.opWrite(c10P("a"), c10IdxNumStr(12), c10Int(12), false))
+		do(h.opRead(c10P("a"), c10IdxNumStr(10), false))
+		do(h.opWrite(c10P("a"), c10IdxNumStr(10), c10Str("ten"), false))
+		do(h.opRead(c10P("a"), c10IdxInt(8, "fixed"), false))
+		do(h.opInit("s", c10Str("abcdefghijk")))
+		do(h.opRead(c10P("s"), c10IdxNumStr(10), false))
+		do(h.opWrite(c10P("s"), c10IdxNumStr(10), c10Str("Z"), false))
+	},
 }
 
 func c10NestedHistory(h *c10Hist, do func(*c10Op), typed bool) {
@@ -2348,7 +2387,7 @@ func init() {
 				Rule:  "one evaluation = one history: a fresh environment, 3-8 container variables and 10-40 operations, each its own vm.Execute call; after every operation every variable is fetched with env.Get and walked against a native Go model (types, contents, len, cap, storage sharing through a live<->model element-address bijection); an operation the Go model rejects must report an error and leave every container unchanged. A history is non-trivial when >=3 operations ran and >=1 mutated a container; distinct = distinct operation text.",
 				Assumptions: []string{
 					"Go's own slice/map/string operations (through reflect) are the reference; capacity after a growing append is adopted from the live object",
-					"not generated: numeric-string/float/bool indices, reslice high bound in (len,cap], struct value copies, `in` on maps/strings, multi-byte string-position stores, int->string and nil->typed-slot stores",
+					"numeric-string indices only as decimal numerals with a leading zero (accepted: error, or what the integer does); not generated: float/bool indices, reslice high bound in (len,cap], struct value copies, `in` on maps/strings, multi-byte string-position stores, int->string and nil->typed-slot stores",
 					"accepted both ways: []interface{} / []float64 stored into a []int64 field (element-wise copy or error); missing key of a typed map reads nil or the zero value; a key a typed map cannot hold reads nil or errors",
 				},
 				Phases: []fw.Phase{
